@@ -116,7 +116,7 @@ impl Property for C04 {
         "C04"
     }
     fn plan(&self, tier: Tier) -> Vec<Segment> {
-        vec![Segment::random("short", tier.pick(180_000, 3_200_000), &[0], 8, 400), Segment::random("long", tier.pick(15_000, 320_000), &[1], 8, 2000), Segment::enumerated("skewed-long", tier.pick(36, 216), &[2])]
+        vec![Segment::random("short", tier.pick(180_000, 3_200_000), &[0], 8, 400), Segment::random("long", tier.pick(15_000, 320_000), &[1], 8, 2000), Segment::enumerated("skewed-long", tier.pick(54, 324), &[2])]
     }
     fn rule(&self) -> &'static str {
         "case = (monotone sequence as in C03, u, builder, one of 5 select+select_zero back-ends) decoded from bytes; queries = 0, 1, every x_i (sampled above 40) and x_i+-1, midpoints, bucket edges (q>>l)<<l, u-1, u, u+1, u+2^l, 2u, 2^63, usize::MAX and random values; oracle = partition_point on the sorted input, any index holding the returned value is accepted; observed index_of, contains, succ, succ_strict, pred, pred_strict. Non-trivial: n>=2 and some query is an absent interior value, or labels q>u, q=u, n=0, n=1, dup; distinct = distinct hash of the decoded case."
